@@ -37,6 +37,10 @@ CHECKS = {
  "C18": ("exploration", "model-based property testing of write sequences through one writer plus exhaustive header bit-flip/truncation enumeration; reference header from refpcf/CRC-64-AVRO",
          "Each successful write must emit exactly marker+fingerprint+datum and read back alone via both readers, also after failed writes; all 80 header bit flips and all truncations must be rejected without touching the datum.",
          "Expected fingerprint from the harness's reference canonical form (schemas without logical types, whose canonical form is C12's known finding).", "DESIGN.md §4 C18"),
+
+ "C11": ("exploration", "property-based testing with structural JSON mutation, arbitrary JSON/text generation and a grammar generator; totality, operation-totality, well-formedness-walker and completeness oracles",
+         "Mutated, arbitrary and generated schema texts: the three parser entry points return and agree; every operation on an accepted schema completes; accepted schemas pass the harness's well-formedness walker; generated well-formed schemas are accepted.",
+         "Well-formedness as implemented by the harness's walker over the library's public Schema fields; hangs are not decided (only panics/errors).", "DESIGN.md §4 C11"),
 }
 NOT_YET = {}
 
